@@ -169,10 +169,13 @@ fn import_extension_fields(node: &mut Node, doc: &mut RustDocument, base_fields:
             }
         }
 
-        for n in base.children().filter(Node::is_element) {
-            if n.tag_name().name() == "sequence" {
-                import_sequence_node_fields(&mut base, doc, base_fields)?;
-            }
+        // the content of the extension: its sequence and the attributes it declares itself (an
+        // extension may consist of attributes only)
+        if base
+            .children()
+            .any(|n| n.is_element() && matches!(n.tag_name().name(), "sequence" | "attribute"))
+        {
+            import_sequence_node_fields(&mut base, doc, base_fields)?;
         }
     }
     Ok(())
